@@ -113,14 +113,24 @@ def unit_coef(u, rec):
     rec.dim("order", p)
     terms = [("const", 0.0)] + [("lin", a) for a in (0.7, -0.5, 2.0, 1.3j, -1 - 0.4j)] + [("sq", 0.0)]
     states = [np.full(Z.shape, 1.0 + 0j), np.full(Z.shape, 0.3 - 0.2j), 0.4 * np.exp(1j * np.arange(Z.size) * 0.7)]
-    for dt in u["dts"]:
+    # contour variants: the default (16 points, radius 1) and two non-default contours (the mean must be taken over the points actually used; radii are
+    # chosen off the lattice magnitudes because a lattice point z with |z| = radius can sit exactly on a contour node, where the method is singular by design);
+    # plus the real axis passed as a REAL-dtype operator (a user-defined real symbol must give the same coefficients)
+    variants = [("default", {}, Z, False), ("M32_r2", dict(num_circle_points=32, circle_radius=2.0), Z, False), ("M24_r0.7", dict(num_circle_points=24, circle_radius=0.7), Z, False),
+                ("real_dtype", {}, Z[np.abs(Z.imag) == 0], True)]
+    for dt, (vname, ckw, Zv, as_real) in itertools.product(u["dts"], variants):
+        if vname != "default" and dt != u["dts"][0]:
+            continue
         rec.dim("dt", dt)
-        lin = jnp.asarray((Z / dt)[None, :])
+        rec.dim("contour", vname)
+        lin = jnp.asarray((Zv.real / dt)[None, :]) if as_real else jnp.asarray((Zv / dt)[None, :])
         zz = np.asarray(lin)[0] * dt  # the z the implementation actually sees (rounded once)
+        zz = zz.astype(complex)
         for kind, alpha in terms:
-            integ = cls(dt, lin, UserN(kind, alpha))
+            integ = cls(dt, lin, UserN(kind, alpha), **ckw)
             nfun = np_n(kind, alpha)
             for si, s in enumerate(states):
+                s = s[: zz.size] if s.size != zz.size else s
                 if kind == "sq" and si == 0:
                     s = s * 0.3
                 got = np.asarray(integ.step_fourier(jnp.asarray(s[None, :])))[0]
@@ -130,11 +140,11 @@ def unit_coef(u, rec):
                     e = np.abs(got - want) / tol
                 e = np.where(np.isfinite(want), e, 0.0)
                 bad_nonfinite = ~np.isfinite(got) & np.isfinite(want)
-                rec.count(states=Z.size, transitions=1, traces=1)
+                rec.count(states=zz.size, transitions=1, traces=1)
                 j = int(np.argmax(np.where(bad_nonfinite, np.inf, e)))
-                rec.close(np.inf if bad_nonfinite.any() else e[j], 1.0, f"C02/coef/order{p}/{kind}",
+                rec.close(np.inf if bad_nonfinite.any() else e[j], 1.0, f"C02/coef/order{p}/{kind}" + ("" if vname == "default" else f"/{vname}"),
                           "ETDRK step differs from the Cox-Matthews scheme with exact phi coefficients",
-                          dt=dt, alpha=complex(alpha), state=si, z=complex(zz[j]), got=complex(got[j]), want=complex(want[j]))
+                          dt=dt, contour=vname, alpha=complex(alpha), state=si, z=complex(zz[j]), got=complex(got[j]), want=complex(want[j]))
                 rec.outcome_array(got[::37])
     rec.sample({"order": p, "z_examples": [complex(z) for z in Z[[0, 1, 50, 200, -1]]], "terms": [t[0] for t in terms], "dts": u["dts"]})
 
